@@ -695,7 +695,6 @@ func (c *cloner) register(old, neu interface{}) {
 	}
 }
 
-
 // purePath: e names a variable, a field path from one, or the address of such (x, x.f.g, &x.f): reading it twice gives
 // the same thing and has no effect.
 func purePath(info *types.Info, e ast.Expr) bool {
